@@ -5,7 +5,7 @@ import ast
 from typing import List
 
 from ..callgraph import callgraph
-from ..cfg import cfg_of, edges_dominate, node_calls
+from ..cfg import cfg_of, dominating_edges, edges_dominate, node_calls, nodes_dominate
 from ..defuse import def_value, derives_from, reaching_defs, resolve_alias
 from ..esp import UNKNOWN, run_function
 from ..model import Func, Repo, body_nodes, norm, short
@@ -17,6 +17,10 @@ def check(repo: Repo, rep, tier):
     string_tokens(repo, rep)
     fmt_taint_fragment(repo, rep)
     utf8(repo, rep)
+    escape_once(repo, rep)
+    from .C03 import io_encoding
+
+    io_encoding(repo, rep)
     stale_bindings(repo, rep, {"config"}, "e.g. a copied `config` never sees the format-command read in pytest_configure, so code fragments are piped through the wrong formatter path")
 
 
@@ -188,3 +192,69 @@ def utf8(repo: Repo, rep):
             rep.ok("R-UTF8", f, c, "UTF-8 bytes out")
         else:
             rep.violation("R-UTF8", f, c, f"`{short(c, 40)}` decodes the formatter's output without an explicit strict UTF-8", construct="decode:" + norm(c)[:40])
+
+
+def _is_backslash_prefix(e: ast.AST):
+    """`"\\" + X` (or `... + "\\" + X`): returns X."""
+    if isinstance(e, ast.BinOp) and isinstance(e.op, ast.Add):
+        l = e.left
+        if isinstance(l, ast.BinOp) and isinstance(l.op, ast.Add):
+            l = l.right
+        if isinstance(l, ast.Constant) and l.value == "\\":
+            return e.right
+    if isinstance(e, ast.JoinedStr) and len(e.values) >= 2 and isinstance(e.values[-2], ast.Constant) and str(e.values[-2].value).endswith("\\") and isinstance(e.values[-1], ast.FormattedValue):
+        return e.values[-1].value
+    return None
+
+
+def escape_once(repo: Repo, rep):
+    rep.rule(
+        "R-ESCAPE-ONCE",
+        "in the string-literal helper a character gets at most one escaping backslash: where a nested per-character escape prepends a backslash to the "
+        "quote character held in a variable V of the helper (`if c == V: return '\\\\' + c`), the later statement that prepends a backslash to the *last* "
+        "character (`s[:-1] + '\\\\' + s[-1]`) is dominated by a condition that mentions V - otherwise a string that ends in V is escaped twice (`\\\\\"`), "
+        "the literal ends in a backslash plus an unescaped quote and no longer evaluates to the value",
+    )
+    n = 0
+    for f in repo.pkg_funcs():
+        if f.module.rel != "_utils.py" or f.parent is not None:
+            continue
+        inner = [g for g in repo.pkg_funcs() if g.parent is not None and g.parent == f]
+        # (a) per-character escape of a quote variable
+        quote_vars = set()
+        for g in inner:
+            if not g.params:
+                continue
+            c = g.params[0]
+            gcfg = cfg_of(g)
+            for r in gcfg.stmts(ast.Return):
+                x = _is_backslash_prefix(r.ast.value) if r.ast.value is not None else None
+                if isinstance(x, ast.Name) and x.id == c:
+                    for cond, lab in dominating_edges(gcfg, r):
+                        t = cond.ast
+                        if lab == "T" and isinstance(t, ast.Compare) and len(t.ops) == 1 and isinstance(t.ops[0], ast.Eq):
+                            for a, b in ((t.left, t.comparators[0]), (t.comparators[0], t.left)):
+                                if isinstance(a, ast.Name) and a.id == c and isinstance(b, ast.Name) and b.id != c:
+                                    quote_vars.add(b.id)
+        if not quote_vars:
+            continue
+        cfg = cfg_of(f)
+        # (b) escape of the last character
+        for a in cfg.stmts(ast.Assign):
+            x = _is_backslash_prefix(a.ast.value)
+            if not (isinstance(x, ast.Subscript) and isinstance(x.slice, ast.UnaryOp) and isinstance(x.slice.op, ast.USub)):
+                continue
+            n += 1
+            mentions = [c for c in cfg.conds() if any(isinstance(y, ast.Name) and y.id in quote_vars for y in ast.walk(c.ast))]
+            if mentions and nodes_dominate(cfg, mentions, a):
+                rep.ok("R-ESCAPE-ONCE", f, a.ast, f"the final-quote escape is conditioned on `{short(mentions[0].ast, 50)}`")
+            else:
+                rep.violation(
+                    "R-ESCAPE-ONCE",
+                    f,
+                    a.ast,
+                    f"`{short(a.ast, 60)}` escapes the last character although the per-character escape may already have escaped it (it equals `{sorted(quote_vars)[0]}`): "
+                    "a string containing both triple-quote kinds that ends in that quote character gets `\\\\\"`, fails the literal_eval self-check and aborts the session with an AssertionError",
+                    construct="final-quote",
+                )
+    rep.count("final_quote_escapes", n)
